@@ -31,17 +31,19 @@ check("C01", "rocq-core", "proof",
       "Theorems in coq/core/Properties/C01.v over the cluster model Cluster.v (N nodes driven only through the actor handlers), for every "
       "history H of distinct-stamp operations within one forgiveness period and every trace of well-formed events (client operation with any set "
       "of acknowledging replicas = lost/delivered direct messages, batches of earlier operations delivered to any node any number of times in any "
-      "order, complete exchanges, removal half and fetch+modification half of an exchange as separate events in any interleaving): every event "
+      "order, complete exchanges, removal half and fetch+modification half of an exchange as separate events in any interleaving, purge-task "
+      "runs and restarts of a node on its own store anywhere): every event "
       "keeps every node consistent (set invariant, set = store, everything held is an operation of H) and no view ever goes back; one complete "
       "exchange makes the repairing node hold at least what the peer holds; and if after the last client operation every ordered pair of nodes "
       "completes an exchange, EVERY node's set and store show, for every id, exactly the greatest-stamp operation of H (live at that stamp if a "
-      "put, tombstone if a delete; ids never written are absent). The pre-fix acceptance rule is refuted (lagging node serves a deleted "
+      "put, tombstone if a delete; ids never written are absent), and a read returns the winner's stamp and BYTES if it is a put and nothing "
+      "if it is a delete (payload invariant: every store write of every handler under every storage outcome copies a request's bytes; "
+      "fetched documents copy the peer's). The pre-fix acceptance rule is refuted (lagging node serves a deleted "
       "document). Model tied to the code by 2-4 real in-process nodes (hx-cluster): named schedules + random schedules, compared after every "
       "event, with the convergence oracle (ids, bytes, stamps) at quiescence.",
       "Trusted: Coq kernel, models Orswot/Actor/Cluster.v, extraction + driver, the Rust executor and the in-process transport / wall-clock hooks. "
-      "The theorem's trace has no purge/restart events (purge is a no-op within the period by C08, restart preserves views by C07; both are "
-      "exercised by the executor and compared with the model). Document bytes: oracle and model comparison, not the theorem. Chitchat, timers "
-      "and the distributor's batching loop are not modelled.")
+      "Events of the trace are atomic handler executions (a node restarting in the middle of a request is C07's theorem, not part of this "
+      "trace); storage calls inside the trace succeed (failures: C02). Chitchat, timers and the distributor's batching loop are not modelled.")
 check("C02", "rocq-core", "proof",
       "Theorems in coq/core/Properties/C02.v over the model Actor.v of the keyspace actor handlers: Agree (for every id the set's view — live at t / "
       "tombstone at t / nothing — equals the store's metadata) together with the set invariant is preserved by every request (Set, MultiSet, "
@@ -55,15 +57,17 @@ check("C02", "rocq-core", "proof",
 check("C03", "rocq-core", "proof",
       "Theorems in coq/core/Properties/C03.v over the transcription of OrSWotSet::merge and NodeVersions::merge in Orswot.v. For any two sets the "
       "merged entries/tombstones are characterised key by key (the time-sorted log has one entry per key, so the sort cannot influence the "
-      "result - proved, not assumed). For replicas of one history with distinct stamps within one forgiveness period (closed under applying "
-      "operations of the history in any order through any sources and under merging): a merge is the per-key maximum by stamp, hence "
-      "commutative, associative, idempotent, re-merging changes nothing, and replicas that merged each other (directly or through a third) "
-      "answer every lookup identically; the merged set again satisfies the set invariant (safe cut-offs in sync with the merged maxima). "
-      "Partial: the property's alternative premise (gap-free prefixes spanning more than a period) is not proved "
-      "(C03_merge_laws_partial); outside both premises commutativity is refuted by a witness. Tied to orswot.rs by exhaustive/sampled "
-      "replica triples and all six merge expressions (hx-orswot mode=c03).",
+      "result - proved, not assumed). Under EACH of the property's two premises - (A) replicas of one history with distinct stamps within one "
+      "forgiveness period (closed under applying operations in any order through any sources and under merging); (B) replicas that have "
+      "applied a gap-free prefix of every origin's operations, the history spanning any number of periods (closed under applying an origin's "
+      "next or a repeated operation through any source and under merging) - a merge is the per-key maximum by stamp, hence commutative, "
+      "associative, idempotent, re-merging changes nothing, and replicas that merged each other (directly or through a third) answer every "
+      "lookup identically; the merged set again satisfies the set invariant. Under (B) the cut-off checks inside merge only ever drop what the "
+      "other side has already applied (proved). Outside both premises commutativity is refuted by a witness. Tied to orswot.rs by "
+      "exhaustive/sampled replica triples and all six merge expressions (hx-orswot mode=c03), within the period, as gap-free prefixes "
+      "stretched over several periods, and outside both premises.",
       "Trusted: Coq kernel, model Orswot.v (merge transcribed loop by loop; HashMap iteration order abstracted by gmap and shown irrelevant), "
-      "extraction + driver, Rust executor. Premise (A) only.")
+      "extraction + driver, Rust executor. Premise (A) needs tick >= 1 (K1); premise (B) does not.")
 check("C04", "rocq-core", "proof",
       "Theorems in coq/core/Properties/C04.v over the model Orswot.v of OrSWotSet<N>, for every reachable set, every operation, every arrival "
       "sequence with distinct stamps, every source assignment: the acceptance rule (accepted iff not older than the safe cut-off), step refinement "
@@ -137,8 +141,9 @@ check("C12", "rocq-frame", "proof",
       "bounds, and runs no handler. Tied to rkyv_tooling/view.rs, mod.rs and the request/reply path by differential execution of six message "
       "types (exhaustive flips/truncations per frame) and in-process RPC exchanges (hx-frame, release and debug builds).",
       "Trusted: Coq kernel, the hand-written model Crc.v/Frame.v, ExtrOcamlBasic plus the OCaml driver, the Rust executor. rkyv's serializer "
-      "and view are a hypothesis (round-trip law), validated by execution only; crc32fast is modelled as bit-serial CRC-32; hyper body "
-      "reassembly is bypassed by the in-process transport.")
+      "and view are a hypothesis (round-trip law), validated by execution only; crc32fast is modelled as bit-serial CRC-32; HTTP/2 framing is "
+      "replaced by the in-process transport, which re-creates body chunking (pieces of 1/3/16/1000 bytes without a length hint) so that "
+      "the real reassembly code (to_aligned) runs.")
 check("C13", "rocq-registry", "proof",
       "Theorems in coq/registry/Properties/C13.v, for every add/remove history and any handler-key function injective on the pairs in use: a "
       "request is served iff its service was added and not removed since, by the latest such add's instance, else refused; removing one service "
@@ -195,6 +200,20 @@ check("C18", "rocq-keyspace", "proof",
       "(theorems cover the finer multi-thread interleavings).",
       "Rocq/Coq machine-checked invariant proof over an executable interleaving model + schedule-enumerating differential correspondence check")
 
+check("C19", "rocq-core", "other",
+      "Theorems in coq/core/Properties/C19.v over Transfer.v (service wraps the encoded set, client decodes with a checked decoder; codec = "
+      "Section variable with the round-trip law): for every reachable keyspace state of any size the received state IS the sent state, "
+      "hence observably identical (live ids, tombstones, stamps, accept/refuse decisions and results of any further operation sequence); "
+      "sets are determined by their contents; bytes that do not decode yield an error. Tied to replication_impl.rs / client.rs / actor.rs "
+      "by the real ReplicationService and ReplicationClient::get_state over the in-process transport (hx-transfer): all state shapes x "
+      "sizes 0..40 (every offset of the nested slice mod 16), 64..1000 (10000 thorough), 1..200 origins, both sources, purged prefixes; "
+      "received set compared with the model's and, by the oracle, with the sender's (contents, diff both ways, will_apply probes, "
+      "follow-up operations); a peer answering with damaged nested bytes must produce an error.",
+      "The byte-level facts (rkyv layout, alignment and validity of the nested cast) are outside any Gallina model: exercised on the "
+      "states run, not proved. Trusted: Coq kernel, models Transfer.v/Actor.v/Orswot.v, extraction + driver, Rust executor, in-process "
+      "transport hook.",
+      "Rocq/Coq specification theorems over an executable model + differential execution of the real service/client pair")
+
 
 def main():
     props = [json.loads(l) for l in open(os.path.join(VERIF, "properties.jsonl"))]
@@ -210,7 +229,7 @@ def main():
             "enable": "the harness workspaces (/verif/harness, /verif/harness-sim) depend on the /repo crates with features=[\"verif-hooks\"]; "
                       "no member of /repo's own workspace enables the feature",
             "baseline_off_cmd": "cd /repo && cargo nextest run --workspace --no-fail-fast --test-threads 8 --offline || cargo test --workspace --no-fail-fast --offline",
-            "source_commits": ["3d14cf9", "445d25e", "d0bd1e4", "a802df6"],
+            "source_commits": ["3d14cf9", "445d25e", "d0bd1e4", "a802df6", "a7b3111"],
             "add_only": True,
         },
         "engines": [],
